@@ -6,6 +6,7 @@ import (
 	"encoding/json"
 	"fmt"
 	"os"
+	"runtime"
 	"strconv"
 	"testing"
 	"testing/synctest"
@@ -24,6 +25,19 @@ func runInBubble(t *testing.T, sc *Scenario) (h *History, dirty bool) {
 			dirty = h.Aborted
 		}
 	}()
+	if sc.Cfg.SettleNs > 0 {
+		// the task census compares process-wide goroutine counts: let stragglers of the
+		// previous run (its test-runner goroutine finishing in real time) disappear first
+		prev := -1
+		for i := 0; i < 100; i++ {
+			n := runtime.NumGoroutine()
+			if n == prev {
+				break
+			}
+			prev = n
+			time.Sleep(300 * time.Microsecond)
+		}
+	}
 	synctest.Test(t, func(t *testing.T) {
 		if sc.Prop == "C07" || sc.Prop == "C08" {
 			h = RunDiam(sc)
